@@ -55,6 +55,7 @@ impl Scenario for StopScenario {
 			slow_steps: self.slow_steps,
 			buffer: if self.name.contains("buffer1") { 1 } else { 16 },
 			max_req: if self.name.contains("oversized") { 256 } else { 0 },
+			low_ws: self.name.starts_with("low-level:"),
 			..Default::default()
 		})
 	}
@@ -220,6 +221,10 @@ pub fn scenarios(thorough: bool) -> Vec<StopScenario> {
 	// the peer sends a frame above max_request_body_size while the server waits for the pending call: that is not a disconnect
 	add("ws-peer-sends-oversized-frame-during-stop", vec![ws(vec![PeerAct::SlowCall, PeerAct::Oversized(257)])], vec![], false, false, 1, mask_harness_only);
 	add("ws-peer-sends-oversized-frame-and-call-during-stop", vec![ws(vec![PeerAct::SlowCall, PeerAct::Oversized(5000), PeerAct::Call])], vec![], false, false, 1, mask_harness_only);
+	// the low-level assembly: ws::connect / http::call_with_service_builder called from an application-made service
+	add("low-level:ws-slow-call", vec![ws(vec![PeerAct::SlowCall])], vec![], false, false, 1, mask_harness_only);
+	add("low-level:ws-and-http", vec![ws(vec![PeerAct::SlowCall, PeerAct::Call]), http(vec![HttpAct::SlowCall])], vec![], false, false, 1, mask_harness_only);
+	add("low-level:ws-peer-sends-oversized-frame-during-stop", vec![ws(vec![PeerAct::SlowCall, PeerAct::Oversized(300)])], vec![], false, false, 1, mask_harness_only);
 	// a subscribe call in flight at stop while the connection's outgoing buffer (capacity 1) is full and the writer is held back
 	for (how, script) in [("accept", vec![Accept]), ("reject", vec![Reject])] {
 		add(&format!("ws-subscribe-{how}-in-flight-buffer1-writer-point"), vec![ws(vec![PeerAct::Call, PeerAct::Call, PeerAct::Subscribe(0)])], vec![script.clone()], false, false, 1, mask_send_task);
